@@ -255,7 +255,7 @@ def run(chk):
                 try:
                     got = mm.evolve(m2r, q0, SCd(masses2, own, order), list(tr), xif2v, q1, nf_ref=nf0, nf_to=nf1)
                 except Exception as e:  # noqa: BLE001
-                    chk.fail(f"{tag}.no_exception", f"{type(e).__name__}: {e}", fn=fne, replay=rp_ev)
+                    chk.raised(f"{tag}.no_exception", e, fn=fne, replay=rp_ev)
                     continue
                 up = nf1 > nf0
                 Tk = [m * r for m, r in zip(masses2, tr)]                       # spec: the mass changes patch at m_h^2 x ratio
